@@ -9,8 +9,9 @@ from ..index import AnalysisError, ClassInfo, FunctionInfo, Program
 from .. import crash
 
 
-def e4(ctx: Ctx, modules: Iterable[str]) -> None:
-    crash.run_all(ctx, modules)
+def e4(ctx: Ctx, modules: Iterable[str], only=None) -> None:
+    """Certain-crash lint over the given modules; ``only(fi) -> bool`` restricts ownership to some functions."""
+    crash.run_all(ctx, modules, only)
 
 
 def funcs_of(ctx: Ctx, module: str, names: Iterable[str]) -> List[FunctionInfo]:
